@@ -9,9 +9,15 @@ Requests:
   uint_value <strict> <nbits> obj        safe_int obj | safe_float obj | safe_rect_list obj
   pagetree <strict> <catalog dict>       get_widths <strict> <array>
   xref <strict> <start> <k> (<pos> <X|obj> <X|obj>)*k
+  ra_calls obj                           getobj calls of resolve_all (non-STRICT) on the current graph (round 6)
+  calls obj                              getobj calls of resolve1 on the current graph, and the proved bound (round 6)
+  sdec <k> <namehex>*k <hex>             PDFStream.decode with /Filter [names], no DecodeParms (round 6)
+  pred png|tiff <colors> <columns> <bpc> <hex>   predictors of Model/Filters.lean on arbitrary parameters (round 6)
+  dec rl|ahx|a85|lzw <hex>               stream decoders of Model/Filters.lean on arbitrary payloads (round 6)
 Replies:  V …  |  E <PythonClassName>  |  E fuel  |  bad-op
 -/
 import PdfVerif.Model.Lenient
+import PdfVerif.Model.Filters
 
 open PdfVerif PdfVerif.Lenient
 
@@ -169,8 +175,51 @@ def accessor (name : String) : Option (Bool → Graph → Obj → Except Err Obj
   | "resolve_all" => some resolveAll
   | _ => none
 
+/-- round 6: the stream decoders (Model/Filters.lean) on arbitrary payloads. -/
+def decReply (r : Except PdfVerif.Filters.Err Bytes) : String :=
+  match r with
+  | .ok d => "V " ++ hexOrDash d
+  | .error e => "E " ++ e.name
+
+def decoder (name : String) : Option (Bytes → Except PdfVerif.Filters.Err Bytes) :=
+  match name with
+  | "rl" => some PdfVerif.Filters.rldecode
+  | "ahx" => some PdfVerif.Filters.asciihexdecode
+  | "a85" => some PdfVerif.Filters.ascii85decode
+  | "lzw" => some PdfVerif.Filters.lzwdecode
+  | _ => none
+
 def step (g : Graph) (line : String) : Graph × String :=
   match words line with
+  | ["pred", kind, co, cl, bp, h] =>
+    match co.toNat?, cl.toNat?, bp.toNat?, bytesOfHex h with
+    | some co, some cl, some bp, some d =>
+      if kind == "png" then (g, decReply (PdfVerif.Filters.apply_png_predictor co cl bp d))
+      else if kind == "tiff" then (g, decReply (PdfVerif.Filters.apply_tiff_predictor co cl bp d))
+      else (g, "bad-op")
+    | _, _, _, _ => (g, "bad-op")
+  | ["dec", name, h] =>
+    match decoder name, bytesOfHex h with
+    | some f, some d => (g, decReply (f d))
+    | _, _ => (g, "bad-op")
+  | "ra_calls" :: rest =>
+    match parseObj rest with
+    | some (x, []) => (g, "V " ++ toString (resolveAllCalls g x))
+    | _ => (g, "bad-op")
+  | "calls" :: rest =>
+    match parseObj rest with
+    | some (x, []) => (g, "V " ++ toString (resolve1Calls g x) ++ " " ++ toString ((objids g).length + 1))
+    | _ => (g, "bad-op")
+  | "sdec" :: k :: rest =>
+    match k.toNat? with
+    | some k =>
+      match (rest.take k).mapM bytesOfHex, rest.drop k with
+      | some names, [h] =>
+        match bytesOfHex h with
+        | some d => (g, decReply (PdfVerif.Filters.streamDecode id (.list names) .absent d))
+        | none => (g, "bad-op")
+      | _, _ => (g, "bad-op")
+    | none => (g, "bad-op")
   | "G" :: k :: rest =>
     match k.toNat? with
     | some k =>
